@@ -3,7 +3,8 @@ from __future__ import annotations
 
 from typing import Dict, List
 
-from .. import core, impl, mgrcorr, mgrprop
+from .. import core, gen, hx, impl, mgrcorr, mgrprop
+from .. import indicators as X
 from .C03 import expected
 
 
@@ -58,12 +59,68 @@ def falsify(ctx, cfg, rows, init, ops, meta) -> bool:
                     if s["clean"] is None or tuple(s["clean"]) != tuple(rw[1:6]):
                         bad = {"relation": "raw-values-not-recoverable"}
                         break
+    if bad is None and not cfg.get("fill") and len(rows) >= 3 and len(rows) % 2 == 0:
+        ctx.count("hexital_level_cases")
+        bad = hexital_level(cfg, rows, init, ops, meta)
     if bad:
         sig = {"kind": "heikin-ashi", **bad, "fill": bool(cfg.get("fill"))}
         ctx.fail(sig, f"Heikin-Ashi: {bad} tf={cfg.get('tf')} fill={cfg.get('fill')} n={len(rows)} init={len(init)}",
                  {"cfg": cfg, "init": init, "ops": ops}, size=len(rows))
         return True
     return False
+
+
+def hexital_level(cfg, rows, init, ops, meta):
+    """The same stream and schedule through a Heikin-Ashi Hexital whose members live on two
+    managers (the raw stream and a collapsing timeframe): every manager must hold the recurrence
+    over its own raw (collapsed) candles, with the raw values recoverable.  Also two standalone
+    indicators that were handed one and the same HeikinAshi object."""
+    from hexital.candlesticks.heikinashi import HeikinAshi
+    tf = cfg.get("tf")
+    if tf is None:
+        step = max(1, (rows[-1]["ts"] - rows[0]["ts"]) // max(1, len(rows) - 1))
+        tfs = max(2, 3 * step)
+        tf = f"S{tfs}" if tfs < 86400 * 7 else None
+        if tf is None:
+            return None
+    tfs = mgrcorr.tf_seconds(tf)
+    spec = {"kind": "SMA", "kw": {"period": 3, "input_value": "close"}, "round_value": 4}
+
+    def judge(cs, raw, where):
+        if [gen.to_ts(c.timestamp) for c in cs] != [r[0] for r in raw]:
+            return {"relation": "candle-set-differs-from-raw", "where": where}
+        ref = ha_reference([r[1:5] for r in raw])
+        for c, rf, rw in zip(cs, ref, raw):
+            if not c.tag:
+                return {"relation": "candle-not-converted", "where": where}
+            if (c.open, c.high, c.low, c.close) != rf:
+                return {"relation": "recurrence", "where": where}
+            cv = c.clean_values
+            if not cv or tuple(cv.get(k) for k in ("open", "high", "low", "close", "volume")) != tuple(rw[1:6]):
+                return {"relation": "raw-values-not-recoverable", "where": where}
+        return None
+
+    raw0 = [(r["ts"], r["open"], r["high"], r["low"], r["close"], r["volume"]) for r in rows]
+    raw1 = expected(rows, tfs)
+    try:
+        with core.time_limit(30):
+            h = hx.hexital([{**r, "inds": {}} for r in init], [hx.member(spec), hx.member(spec, tf)], {"ha": True})
+            shared = HeikinAshi()
+            a = X.build(spec, X.mk_rows([{**r, "inds": {}} for r in init]), {"ha_obj": shared})
+            b = X.build(spec, X.mk_rows([{**r, "inds": {}} for r in init]), {"tf": tf, "ha_obj": shared})
+            for op in ops:
+                if op[0] == "append":
+                    h.append(X.mk_rows([{**r, "inds": {}} for r in op[1]]))
+                    a.append(X.mk_rows([{**r, "inds": {}} for r in op[1]]))
+                    b.append(X.mk_rows([{**r, "inds": {}} for r in op[1]]))
+            got = h.get_candles()
+            other = [v for k, v in got.items() if k != "default"]
+            return (judge(got["default"], raw0, "hexital-default") or
+                    (judge(other[0], raw1, "hexital-member-timeframe") if other else None) or
+                    judge(a.candles, raw0, "shared-type-object-raw") or
+                    judge(b.candles, raw1, "shared-type-object-timeframe"))
+    except Exception as e:  # noqa
+        return {"relation": "hexital-exception", "exc": type(e).__name__}
 
 
 def run(ctx: core.Ctx) -> int:
